@@ -63,7 +63,10 @@ Section Def.
     else
       let om := bmass other in
       let nm := if sub then bmass this - om else bmass this + om in
-      if oeqb O nm t0 then None
+      if oeqb O nm t0 then
+        (if sub then Some (mkBody t0 (v3zero O)
+                             (m3sub O (rbi_I (body_rbi this)) (transform_inertia_to_body_frame X other)) false)
+         else None)
       else
         let ocom := v3add O (m3Tv O (stE X) (bcom other)) (str X) in
         let wsum := if sub then v3sub O (v3scale O (bmass this) (bcom this)) (v3scale O om ocom)
@@ -140,7 +143,7 @@ Section Def.
   Definition model0 : Model :=
     mkModel [0] [0] [[]] 0 0 0 0%N (mkV3 t0 (oopp O (odiv O (onat O 981) (onat O 100))) t0)
             [root_joint] [stid O] [0] [rbi_zero O] [mkBody t0 (v3zero O) (m3zero O) false] []
-            [(1%N, 0%N)] [] [0] ws0.       (* name 1 stands for "ROOT"; name 0 = unnamed *)
+            [(1%N, 0%N)] [] [] ws0.       (* name 1 stands for "ROOT"; name 0 = unnamed *)
 
   (* ---------- id predicates and accessors ---------- *)
   Definition is_fixed_id (M : Model) (id : N) : bool :=
